@@ -198,7 +198,7 @@ func (p *Validator) validateBuffer(buf []byte, last bool) error {
 			continue
 		case closeObject:
 			depth--
-			if depth < 0 || p.stack[depth] != '{' {
+			if depth < 0 || p.stack[depth] != '{' || (256 < len(p.mode) && p.mode[256] == 'v') { // no value after the colon
 				return p.newError(off, "unexpected object close")
 			}
 			p.stack = p.stack[0:depth]
